@@ -288,6 +288,12 @@ def main():
     t_start = time.time()
     replay_dir = os.path.join(ROOT, "replays")
     os.makedirs(replay_dir, exist_ok=True)
+    for fn in os.listdir(replay_dir):          # replay files of earlier runs of this check
+        if fn.startswith(pid + "-") and fn.endswith(".json"):
+            try:
+                os.unlink(os.path.join(replay_dir, fn))
+            except OSError:
+                pass
     os.makedirs(os.path.join(ROOT, "evidence"), exist_ok=True)
     known_path = os.path.join(ROOT, "known_findings.json")
     try:
